@@ -68,6 +68,10 @@ pub struct CallFrame {
     /// How many iterations a loop has done.
     pub(crate) loop_iteration_count: u64,
 
+    /// The return value (completion value) register of the caller at the time this frame was
+    /// pushed; it is restored when the frame is popped.
+    pub(crate) caller_return_value: JsValue,
+
     /// `[[ScriptOrModule]]`
     pub(crate) active_runnable: Option<ActiveRunnable>,
 
@@ -151,6 +155,7 @@ impl CallFrame {
             binding_stack: ThinVec::new(),
             code_block,
             loop_iteration_count: 0,
+            caller_return_value: JsValue::undefined(),
             active_runnable,
             environments,
             realm,
